@@ -43,6 +43,7 @@ where
     pub(crate) fn spawn(options: CheckerBuilder<M>) -> Self {
         let model = Arc::new(options.model);
         let target_state_count = options.target_state_count;
+        let target_max_depth = options.target_max_depth;
         let thread_count = options.thread_count;
         let visitor = Arc::new(options.visitor);
         let property_count = model.properties().len();
@@ -187,6 +188,7 @@ where
                                 &discoveries,
                                 &visitor,
                                 1500,
+                                target_max_depth,
                                 &max_depth,
                             );
                             pending.append(&mut targetted_pending);
@@ -258,6 +260,7 @@ where
         discoveries: &DashMap<&'static str, Fingerprint>,
         visitor: &Option<Box<dyn CheckerVisitor<M> + Send + Sync>>,
         max_count: usize,
+        target_max_depth: Option<NonZeroUsize>,
         global_max_depth: &AtomicUsize,
     ) {
         let properties = model.properties();
@@ -282,6 +285,13 @@ where
                     Ordering::Relaxed,
                 );
                 current_max_depth = max_depth.get();
+            }
+
+            if let Some(target_max_depth) = target_max_depth {
+                if max_depth >= target_max_depth {
+                    log::trace!("Skipping state as past max depth {}", max_depth);
+                    continue;
+                }
             }
 
             if let Some(visitor) = visitor {
